@@ -99,6 +99,17 @@ static real_type NV(real_type x)
     __CPROVER_assume(!(x >= -g_vpre) || r >= -__CPROVER_uninterpreted_nv(g_vpre));
     return r;
 }
+/* log1p: sign preserving, zero at zero, finite on finite arguments > -1 (value uninterpreted) */
+real_type __CPROVER_uninterpreted_log1p(real_type);
+static real_type LOG1P(real_type x)
+{
+    real_type r = __CPROVER_uninterpreted_log1p(x);
+    __CPROVER_assume(!(FINV(x) && x > -1) || FINV(r));
+    __CPROVER_assume(!(x > 0) || r > 0);
+    __CPROVER_assume(!(x < 0) || r < 0);
+    __CPROVER_assume(!(x == 0) || r == 0);
+    return r;
+}
 /* fma(a, x, y) as used by axpy: uninterpreted */
 #define FMA(a, b, c) __CPROVER_uninterpreted_fma(a, b, c)
 
@@ -168,6 +179,7 @@ BASE_RULES = Q_RULES + [
     Rule(r"std::sqrt\(", "SQRT(", "*", note="std::sqrt -> uninterpreted, domain asserted"),
     Rule(r"native_value_from\(", "NV(", "*", note="unit conversion (multiplication by a positive constant) -> uninterpreted monotone"),
     Rule(r"real_type\(0\.5\)", "0.5", "*", note="functional cast of a literal"),
+    Rule(r"std::log1p\(", "LOG1P(", "*", note="std::log1p -> uninterpreted with the sign lemma (only present in edited text)"),
     Rule(r"dist_\.points\[StepPoint::(pre|post)\]", r"dist_->points[SP_\1]", "*", note="EnumArray[StepPoint]"),
     Rule(r"\bdist_\.", "dist_->", "*", note="reference member -> pointer"),
 ]
@@ -187,7 +199,7 @@ CG_RULES = COMMON_RULES + [
     Rule(r"RejectionSampler\{([^{}]*)\}\(rng\)", r"REJ_sample(\1, rng)", "+", note="RejectionSampler temporary -> stub (any outcome)"),
     RI_DIV,
     MulToUF("MUL", note="products -> uninterpreted with assumed IEEE sign / monotonicity lemmas"),
-    Rule(r"= MUL\(u, (dist_\.step_length|dist_->step_length)\)\s*/ \(([^;]*)\);", r"= DIV(MUL(u, \1), (\2));", 1, note="time quotient -> uninterpreted with the sign lemma"),
+    Rule(r"= MUL\(u, (dist_\.step_length|dist_->step_length)\)\s*/ \(([^;]*)\);", r"= DIV(MUL(u, \1), (\2));", (0, 1), note="time quotient -> uninterpreted with the sign lemma (an edited time formula keeps its IEEE divisions)"),
     MEMBERS_CG,
     LoopContracts([
         "    __CPROVER_assigns(energy, cos_theta, sin_theta_sq, g_draws)\n    __CPROVER_loop_invariant(1)\n",
@@ -262,7 +274,14 @@ static UniformRealDist URD_make(real_type a, real_type b)
 }
 /* Array operator- (ArrayOperators.hh): componentwise */
 static Real3 SUB3(Real3 a, Real3 b) { Real3 r = {{a.v[0] - b.v[0], a.v[1] - b.v[1], a.v[2] - b.v[2]}}; return r; }
+real_type __CPROVER_uninterpreted_unit3c(real_type, real_type, real_type, int);
+/* make_unit_vector as a Real3 (components uninterpreted) and scalar * Array (ArrayOperators.hh: componentwise IEEE product) */
+static Real3 UNITVEC3R(Real3 p) { Real3 r = {{__CPROVER_uninterpreted_unit3c(p.v[0], p.v[1], p.v[2], 0), __CPROVER_uninterpreted_unit3c(p.v[0], p.v[1], p.v[2], 1), __CPROVER_uninterpreted_unit3c(p.v[0], p.v[1], p.v[2], 2)}}; return r; }
+static Real3 SCALE3(real_type s, Real3 p) { Real3 r = {{s * p.v[0], s * p.v[1], s * p.v[2]}}; return r; }
 #define UNITVEC(p) __CPROVER_uninterpreted_unit3((p).v[0], (p).v[1], (p).v[2])
+/* Array operator/ scalar (ArrayOperators.hh): componentwise */
+Dir3 __CPROVER_uninterpreted_asdir(real_type, real_type, real_type);       /* a 3-vector used as a direction WITHOUT normalisation: opaque value of its components */
+static Dir3 DIVV3(Real3 a, real_type s) { return __CPROVER_uninterpreted_asdir(a.v[0] / s, a.v[1] / s, a.v[2] / s); }
 #define PI 3.14159265358979323846
 /* IEEE: a > b > 0 (finite)  =>  fl(a / b) > 1   (b + ulp(b) <= a, and ulp(b)/b > 2^-53) */
 static real_type DIV1(real_type a, real_type b)
@@ -290,7 +309,8 @@ CGC_RULES = BASE_RULES + [
     Rule(r"inv_beta_\s*=\s*([^;/]+?) / ([^;]+);", r"inv_beta_ = DIV1(\1, (\2));", 1, note="1/beta_mean quotient -> uninterpreted with the sign and a > b lemmas"),
     RI_DIV,
     Rule(r"= (\w+)\.pos - (\w+)\.pos;", r"= SUB3(\1.pos, \2.pos);", "+", note="Array operator-"),
-    Rule(r"make_unit_vector\((\w+)\)", r"UNITVEC(\1)", "+", note="make_unit_vector -> uninterpreted"),
+    Rule(r"make_unit_vector\((\w+)\)", r"UNITVEC(\1)", "*", note="make_unit_vector -> uninterpreted (free count: an edit may normalise differently; the postcondition decides)"),
+    Rule(r"=\s*(delta_pos_|delta_pos)\s*/\s*([^;]+);", r"= DIVV3(\1, (\2));", "*", note="Array operator/ scalar (ArrayOperators.hh): componentwise"),
     MEMBERS_CG,
 ]
 
@@ -513,12 +533,37 @@ void h_sg(void)
 
 
 # ---- ScintillationGenerator::ScintillationGenerator --------------------------
+class ArrayArith:
+    """Array<real_type,3> arithmetic as the constructors use it (ArrayOperators.hh / ArrayUtils.hh), lowered where it occurs:
+    `a.pos - b.pos` -> SUB3(a.pos, b.pos); make_unit_vector(v) -> UNITVEC3R(v) (a Real3 of uninterpreted components); `s * <Real3 call>` -> SCALE3(s, ...)."""
+    pat = "array-arith"
+
+    def apply(self, text, report, where):
+        from vkit.extract import match_close
+        text, n1 = re.subn(r"(\w+)\.pos - (\w+)\.pos", r"SUB3(\1.pos, \2.pos)", text)
+        text, n2 = re.subn(r"\bmake_unit_vector\(", "UNITVEC3R(", text)
+        n3 = 0
+        while True:
+            m = re.search(r"([\w.>-]+)\s*\*\s*(UNITVEC3R|SUB3)\(", text)
+            if not m:
+                break
+            o = m.end() - 1
+            e = match_close(text, o, "(", ")")
+            text = text[:m.start()] + "SCALE3(%s, %s%s)" % (m.group(1), m.group(2).replace("UNITVEC3R", "UNITVEC3R_").replace("SUB3", "SUB3_"), text[o:e + 1]) + text[e + 1:]
+            n3 += 1
+        text = text.replace("UNITVEC3R_(", "UNITVEC3R(").replace("SUB3_(", "SUB3(")
+        if n1 == 0:
+            raise ExtractionDrift("no `a.pos - b.pos` step vector in " + where)
+        report.append({"where": where, "rule": self.pat, "fires": n1 + n2 + n3, "expected": "+", "note": "Array operator- / make_unit_vector / scalar * Array"})
+        return text
+
+
 SGC_RULES = BASE_RULES + [
     Rule(r"if \(shared_\.scintillation_by_particle\(\)\)", "if (shared->by_particle)", 1, note="params query -> flag"),
     Rule(r"CELER_EXPECT\(shared_\);", "", (0, 1), note="params validity (host-built) not modelled"),
     Rule(r"CELER_EXPECT\(dist_\);", "CELER_EXPECT(dist_->num_photons > 0 && dist_->step_length > 0 && dist_->material != INVALID_ID);", (0, 1), note="GeneratorDistributionData::operator bool (text checked)"),
     Rule(r"auto const& (\w+) = dist_->points\[SP_(\w+)\];", r"GeneratorStepData const \1 = dist_->points[SP_\2];", "+", note="const reference -> const copy"),
-    Rule(r"= (\w+)\.pos - (\w+)\.pos;", r"= SUB3(\1.pos, \2.pos);", "+", note="Array operator-"),
+    ArrayArith(),
     MEMBERS_SG,
 ]
 
@@ -826,13 +871,13 @@ UNITS = [
          note="axpy<real_type,3>: y[i] <- fma(a, x[i], y[i]) for each of the three components with ONE scale factor (loop fully unwound, N = 3 is a constant: complete)"),
     Unit("c20_scint_gen_call", build_scint_call, "h_sg", enforce="SG_call", replace=["URD_sample", "REJ_sample", "AXPY", "NORMAL_sample", "EXP_sample"], loop_contracts=True, timeout=600, object_bits=10,
          backend=["sat", "cvc5", "z3"], must_have=[r"SG_call.postcondition", r"loop_invariant_step", r"from_spherical", r"wavelength > 0", r"AXPY.precondition"],
-         checks=["--bounds-check", "--pointer-check"], replay={"src": "replay/c20.cc", "argv": lambda inputs, fl: [["scint_energy_battery"]]},
+         checks=["--bounds-check", "--pointer-check"], replay={"src": "replay/c20.cc", "argv": lambda inputs, fl: [["scint_energy_battery"], ["photon_battery"]]},
          assumptions=["component selection: any valid ScintRecord (Selector: c15_selector)", "polarisation lambda uninterpreted: perpendicularity NOT decided", "from_spherical value uninterpreted",
                       "NormalDistribution: any finite value; ExponentialDistribution: non-negative (assumed)", "IEEE sign / monotonicity lemmas for products, quotients and unit conversions (assumed)",
                       "termination of the rejection loops not decided"],
          note="ScintillationGenerator::operator(): energy = h c / lambda of a positive wavelength; isotropic direction argument in [-1,1]; position = pre + u*(post-pre), u in [0,1] (u = 1 for a neutral parent); "
               "time >= pre-step time on both time-profile branches"),
-    Unit("c20_scint_gen_ctor", build_scint_ctor, "h_sgc", enforce="SG_ctor", timeout=300, backend=["sat", "cvc5"],
+    Unit("c20_scint_gen_ctor", build_scint_ctor, "h_sgc", enforce="SG_ctor", replay={"src": "replay/c20.cc", "argv": lambda inputs, fl: [["photon_battery"]]}, timeout=300, backend=["sat", "cvc5"],
          must_have=[r"SG_ctor.postcondition", r"celer_expect"], checks=["--bounds-check", "--pointer-check"],
          assumptions=["scintillation by particle type is unimplemented in the source (CELER_ASSERT_UNREACHABLE): excluded by precondition"],
          note="ScintillationGenerator constructor: establishes the invariant the call unit requires -- cos(theta) sampled over [-1,1], phi over [0,2pi), delta_pos = post - pre, delta_speed = post - pre >= -pre, neutral flag"),
@@ -851,13 +896,13 @@ UNITS = [
          assumptions=["PoissonDistribution: any count; NormalDistribution: any finite value <= 4e18 (supports: C15)", "scintillation by particle type unimplemented in the source: excluded by precondition"],
          note="ScintillationOffload constructor + operator() (real bodies, composed): no deposit or no scintillation data => no photons requested, nothing sampled; collection indices in range; a non-empty request "
               "carries the parent's step data"),
-    Unit("c20_cerenkov_gen_ctor", build_cerenkov_ctor, "h_cgc", enforce="CG_ctor", timeout=600, backend=["sat", "cvc5", "z3"],
+    Unit("c20_cerenkov_gen_ctor", build_cerenkov_ctor, "h_cgc", enforce="CG_ctor", replay={"src": "replay/c20.cc", "argv": lambda inputs, fl: [["photon_battery"]]}, timeout=600, backend=["sat", "cvc5", "z3"],
          must_have=[r"CG_ctor.postcondition", r"celer_expect", r"celer_assert"], checks=["--bounds-check", "--pointer-check"],
          assumptions=["CerenkovDndxCalculator by its c20_dndx_call contract (finite, non-negative function of charge and speed)", "make_unit_vector uninterpreted",
                       "IEEE quotient lemmas (sign; a > b > 0 => a/b > 1), assumed", "refractive-index table values finite and >= 1 (assumed)"],
          note="CerenkovGenerator constructor: establishes every clause of the invariant the call unit requires -- energies sampled over exactly the table range, 1/beta of the MEAN speed (> 1), "
               "delta_pos = post - pre, delta_speed = post - pre >= -pre, dN/dx ramp and envelope; its own EXPECT/ASSERT hold"),
-    Unit("c20_cerenkov_gen_call", build_cerenkov_call, "h_cg", enforce="CG_call", replace=["URD_sample", "REJ_sample", "AXPY"], loop_contracts=True, timeout=600, object_bits=10,
+    Unit("c20_cerenkov_gen_call", build_cerenkov_call, "h_cg", enforce="CG_call", replace=["URD_sample", "REJ_sample", "AXPY"], loop_contracts=True, replay={"src": "replay/c20.cc", "argv": lambda inputs, fl: [["photon_battery"]]}, timeout=600, object_bits=10,
          backend=["sat", "cvc5", "z3"], must_have=[r"CG_call.postcondition", r"loop_invariant_step", r"sqrt.domain", r"from_spherical", r"URD_sample.precondition", r"AXPY.precondition"],
          checks=["--bounds-check", "--pointer-check"],
          assumptions=["from_spherical / rotate values uninterpreted: unit norm and orthogonality of what they return are NOT decided (trigonometric FP)",
